@@ -144,6 +144,7 @@ pub const FAMILIES: &[&str] = &[
     "cospherical",
     "two_scale",
     "void",
+    "centered_lattice",
 ];
 
 pub const MASKS: &[&str] = &["none", "all_true", "all_false", "single", "random"];
@@ -153,6 +154,8 @@ pub struct GenLimits {
     pub max_n: usize,
     /// Lower bound on the number of generators asked for (0 = none).
     pub min_n: usize,
+    /// Cap on the number of generators of 3D cases (their cells are much more expensive).
+    pub max_n_3d: usize,
     /// Probability weights for dimensionality 1, 2, 3.
     pub dim_weights: [u32; 3],
 }
@@ -162,6 +165,7 @@ impl Default for GenLimits {
         GenLimits {
             max_n: 200,
             min_n: 0,
+            max_n_3d: usize::MAX,
             dim_weights: [1, 3, 6],
         }
     }
@@ -213,6 +217,9 @@ pub fn gen_case(rng: &mut Rng, lim: &GenLimits) -> Case {
     let mut n = pick_n(rng, lim.max_n);
     if lim.min_n > 0 && n < lim.min_n {
         n = lim.min_n + rng.below((lim.max_n.max(lim.min_n) - lim.min_n + 1) as u64) as usize;
+    }
+    if dim == 3 && n > lim.max_n_3d {
+        n = lim.max_n_3d / 2 + rng.below((lim.max_n_3d / 2).max(1) as u64) as usize;
     }
     let family = *rng.pick(FAMILIES);
     let mut unit: Vec<[f64; 3]> = vec![]; // in [0,1)^3
@@ -309,6 +316,52 @@ pub fn gen_case(rng: &mut Rng, lim: &GenLimits) -> Case {
             }
             if rng.chance(0.5) {
                 unit.push([0.5, 0.5, 0.5]);
+            }
+        }
+        "centered_lattice" => {
+            // FCC / BCC (3D), centred square (2D): exactly co-spherical neighbour shells on
+            // which the exact predicate really decides (on a simple cubic lattice every exact
+            // test returns zero, which is also what the float path falls back to)
+            let per_cell = match dim {
+                3 => {
+                    if rng.chance(0.5) {
+                        vec![[0.0, 0.0, 0.0], [0.5, 0.5, 0.0], [0.5, 0.0, 0.5], [0.0, 0.5, 0.5]]
+                    } else {
+                        vec![[0.0, 0.0, 0.0], [0.5, 0.5, 0.5]]
+                    }
+                }
+                2 => vec![[0.0, 0.0, 0.0], [0.5, 0.5, 0.0]],
+                _ => vec![[0.0, 0.0, 0.0], [0.25, 0.0, 0.0]],
+            };
+            let cells = (n / per_cell.len()).max(1);
+            let m = match dim {
+                1 => cells,
+                2 => ((cells as f64).sqrt().ceil() as usize).max(1),
+                _ => ((cells as f64).cbrt().ceil() as usize).max(1),
+            };
+            // power-of-two cell counts give exactly representable coordinates
+            let m = if rng.chance(0.6) { m.next_power_of_two() } else { m };
+            let (my, mz) = match dim {
+                1 => (1, 1),
+                2 => (m, 1),
+                _ => (m, m),
+            };
+            let cap = lim.max_n.min(2 * n + 8).max(2);
+            'fill: for i in 0..m {
+                for j in 0..my {
+                    for k in 0..mz {
+                        for b in &per_cell {
+                            if unit.len() >= cap {
+                                break 'fill;
+                            }
+                            unit.push([
+                                (i as f64 + 0.25 + b[0]) / m as f64,
+                                (j as f64 + 0.25 + b[1]) / my as f64,
+                                (k as f64 + 0.25 + b[2]) / mz as f64,
+                            ]);
+                        }
+                    }
+                }
             }
         }
         "void" => {
